@@ -213,11 +213,23 @@ def getUrls(sheet):
     return itertools.chain(imports, other)
 
 
+def _walk_values(values):
+    """
+    Yield all values including those nested as function arguments.
+    """
+    for value in values:
+        yield value
+        if value.type == css.Value.FUNCTION:
+            yield from _walk_values(
+                item.value for item in value.seq if hasattr(item.value, 'type')
+            )
+
+
 def _uri_values(style):
     return (
         value
         for prop in style.getProperties(all=True)
-        for value in prop.propertyValue
+        for value in _walk_values(prop.propertyValue)
         if value.type == 'URI'
     )
 
